@@ -50,7 +50,14 @@ fn record_of(r: u8) -> IndexRecordOption {
 /// schema: `txt` configured by cfg, a second text field `txt2` (always positions + norms), typed fields, a
 /// facet and two JSON fields
 pub fn make_schema(cfg: &TextCfg) -> Schema {
+    make_schema_sorted(cfg, false)
+}
+
+pub fn make_schema_sorted(cfg: &TextCfg, sorted: bool) -> Schema {
     let mut sb = Schema::builder();
+    if sorted {
+        sb.add_u64_field("sk", tantivy::schema::FAST);
+    }
     let idx = TextFieldIndexing::default().set_tokenizer(&cfg.tokenizer).set_index_option(record_of(cfg.record)).set_fieldnorms(cfg.fieldnorms);
     sb.add_text_field("txt", TextOptions::default().set_indexing_options(idx).set_stored());
     sb.add_text_field("txt2", TEXT);
@@ -68,7 +75,17 @@ pub fn make_schema(cfg: &TextCfg) -> Schema {
 }
 
 pub fn make_index(cfg: &TextCfg) -> Index {
-    let index = Index::create_in_ram(make_schema(cfg));
+    make_index_sorted(cfg, None)
+}
+
+/// `sort`: None, or Some(ascending) - the index is sorted by the fast field `sk` (documents are remapped when a
+/// segment is written, and merges interleave their sources)
+pub fn make_index_sorted(cfg: &TextCfg, sort: Option<bool>) -> Index {
+    let settings = tantivy::IndexSettings {
+        sort_by_field: sort.map(|asc| tantivy::IndexSortByField { field: "sk".to_string(), order: if asc { tantivy::Order::Asc } else { tantivy::Order::Desc } }),
+        ..tantivy::IndexSettings::default()
+    };
+    let index = Index::builder().schema(make_schema_sorted(cfg, sort.is_some())).settings(settings).create_in_ram().unwrap();
     index.tokenizers().register("ngram12", NgramTokenizer::new(1, 2, false).unwrap());
     index
 }
@@ -401,6 +418,37 @@ pub fn check_reading_modes(index: &Index, fname: &str, seg: usize, dump: &FieldD
         if opt.has_freq() && freqs != list.iter().map(|x| x.1).collect::<Vec<_>>() {
             return Err(("block_postings_freqs_differ".into(), format!("field {fname} term {:?}: block-wise term frequencies differ", hexs(term))));
         }
+        // every requested record option, below and above what the field was indexed with: the reader hands out
+        // min(indexed, requested) - the same documents, the indexed term frequencies whenever both sides have
+        // them, the indexed positions whenever both sides have them
+        for req in [IndexRecordOption::Basic, IndexRecordOption::WithFreqs, IndexRecordOption::WithFreqsAndPositions] {
+            if req == opt {
+                continue;
+            }
+            st.count("requested_option_rereads");
+            let mut p = inv.read_postings_from_terminfo(ti, req).map_err(|e| ("machinery".to_string(), format!("{e:?}")))?;
+            let mut j = 0usize;
+            while p.doc() != TERMINATED {
+                if j >= list.len() || p.doc() != list[j].0 {
+                    return Err(("postings_differ_by_requested_option".into(), format!("field {fname} (indexed {opt:?}) term {:?}: read with {req:?} yields doc {} at position {j}, expected {:?}", hexs(term), p.doc(), list.get(j).map(|x| x.0))));
+                }
+                if opt.has_freq() && req.has_freq() && p.term_freq() != list[j].1 {
+                    return Err(("postings_freq_differs_by_requested_option".into(), format!("field {fname} (indexed {opt:?}) term {:?}: read with {req:?} doc {} term_freq {} expected {}", hexs(term), p.doc(), p.term_freq(), list[j].1)));
+                }
+                if opt.has_positions() && req.has_positions() && !ti.positions_range.is_empty() {
+                    let mut pos = vec![];
+                    p.positions(&mut pos);
+                    if pos != list[j].2 {
+                        return Err(("postings_positions_differ_by_requested_option".into(), format!("field {fname} term {:?}: read with {req:?} doc {} positions differ", hexs(term), p.doc())));
+                    }
+                }
+                j += 1;
+                p.advance();
+            }
+            if j != list.len() {
+                return Err(("postings_differ_by_requested_option".into(), format!("field {fname} (indexed {opt:?}) term {:?}: read with {req:?} yields {j} docs, expected {}", hexs(term), list.len())));
+            }
+        }
         // a block cursor opened on the previous term and re-targeted (not advanced / advanced by one block /
         // drained) reads this term's list exactly
         if let Some((pti, popt)) = &prev {
@@ -492,10 +540,38 @@ pub struct Case {
     pub segments: Vec<usize>,
     pub merge: bool,
     pub fields: Vec<String>,
+    /// index sorted by the key field `sk` (Some(ascending)); every document then carries a distinct key
+    #[serde(default)]
+    pub sort: Option<bool>,
+}
+
+fn sort_key(d: &MDoc) -> u64 {
+    d.iter().find_map(|(f, v)| if f == "sk" { if let Val::U64(x) = v { Some(*x) } else { None } } else { None }).unwrap_or(0)
+}
+
+/// documents of one segment in the order the segment must hold them
+fn arrange(docs: &[MDoc], sort: Option<bool>) -> Vec<MDoc> {
+    let mut v = docs.to_vec();
+    match sort {
+        Some(true) => v.sort_by_key(sort_key),
+        Some(false) => v.sort_by_key(|d| std::cmp::Reverse(sort_key(d))),
+        None => {}
+    }
+    v
+}
+
+/// distinct, non-monotone sort keys: residue classes mod 3 first, insertion order inside a class
+fn with_sort_keys(docs: &[MDoc]) -> Vec<MDoc> {
+    let n = docs.len() as u64;
+    docs.iter().enumerate().map(|(i, d)| {
+        let mut d = d.clone();
+        d.push(("sk".to_string(), Val::U64((i as u64 % 3) * n + i as u64)));
+        d
+    }).collect()
 }
 
 pub fn check_case(c: &Case, st: &mut Stats) -> Option<(String, String)> {
-    let index = make_index(&c.cfg);
+    let index = make_index_sorted(&c.cfg, c.sort);
     index_docs(&index, &c.docs, &c.segments, c.merge);
     let searcher = index.reader().unwrap().searcher();
     let schema = index.schema();
@@ -548,6 +624,7 @@ pub fn check_case(c: &Case, st: &mut Stats) -> Option<(String, String)> {
             } else {
                 p.iter().map(|&b| blocks[b].to_vec()).collect()
             };
+            let per_reader: Vec<Vec<MDoc>> = per_reader.iter().map(|d| arrange(d, c.sort)).collect();
             if per_reader.iter().zip(readers.iter()).any(|(d, r)| d.len() as u32 != r.max_doc()) {
                 continue;
             }
@@ -588,6 +665,7 @@ pub fn check_case(c: &Case, st: &mut Stats) -> Option<(String, String)> {
         return first_err.or(Some(("segment_sizes".into(), "no assignment of source blocks matches the segment sizes".into())));
     }
     for (si, docs) in seg_docs.iter().filter(|d| !d.is_empty()).enumerate() {
+        let docs = &arrange(docs, c.sort);
         for fname in &c.fields {
             st.count("field_dumps");
             let got = match dump_field(&readers[si], &schema, fname) {
@@ -737,9 +815,18 @@ pub fn all_cases(thorough: bool) -> Vec<Case> {
     for cfg in &cfgs {
         for (ci, docs) in corpora.iter().enumerate() {
             let n = docs.len();
-            cases.push(Case { cfg: cfg.clone(), docs: docs.clone(), segments: vec![n], merge: false, fields: vec!["txt".into()] });
+            cases.push(Case { cfg: cfg.clone(), docs: docs.clone(), segments: vec![n], merge: false, fields: vec!["txt".into()], sort: None });
             if n >= 2 && (thorough || ci % 5 == 0) {
-                cases.push(Case { cfg: cfg.clone(), docs: docs.clone(), segments: vec![1, n - 1], merge: true, fields: vec!["txt".into()] });
+                cases.push(Case { cfg: cfg.clone(), docs: docs.clone(), segments: vec![1, n - 1], merge: true, fields: vec!["txt".into()], sort: None });
+            }
+            // sorted index: the segment writer remaps doc ids (asc / desc), a merge interleaves its sources
+            if n >= 2 && (thorough || ci % 3 == 0) {
+                for asc in [true, false] {
+                    cases.push(Case { cfg: cfg.clone(), docs: with_sort_keys(docs), segments: vec![n], merge: false, fields: vec!["txt".into()], sort: Some(asc) });
+                    if thorough || ci % 6 == 0 {
+                        cases.push(Case { cfg: cfg.clone(), docs: with_sort_keys(docs), segments: vec![1, n - 1], merge: true, fields: vec!["txt".into()], sort: Some(asc) });
+                    }
+                }
             }
         }
     }
@@ -748,7 +835,7 @@ pub fn all_cases(thorough: bool) -> Vec<Case> {
     let all_fields: Vec<String> = ["txt2", "u", "i", "f", "d", "b", "y", "p", "c", "j1", "j2"].iter().map(|s| s.to_string()).collect();
     let cfg0 = TextCfg { record: 2, fieldnorms: true, tokenizer: "default".into() };
     for (segs, merge) in [(vec![12], false), (vec![5, 7], false), (vec![5, 7], true), (vec![4, 4, 4], true)] {
-        cases.push(Case { cfg: cfg0.clone(), docs: typed.clone(), segments: segs, merge, fields: all_fields.clone() });
+        cases.push(Case { cfg: cfg0.clone(), docs: typed.clone(), segments: segs, merge, fields: all_fields.clone(), sort: None });
     }
     // family B: structured posting lists
     let lens: Vec<usize> = if thorough { vec![1, 127, 128, 129, 255, 256, 257, 384, 5000, 40_000] } else { vec![1, 127, 128, 129, 257, 384] };
@@ -766,7 +853,11 @@ pub fn all_cases(thorough: bool) -> Vec<Case> {
                     let cfg = TextCfg { record, fieldnorms: true, tokenizer: "default".into() };
                     let docs = structured_docs(len, gap, &tfs);
                     let n = docs.len();
-                    cases.push(Case { cfg, docs, segments: vec![n], merge: false, fields: vec!["txt".into()] });
+                    if (len == 129 || len == 257) && gap <= 2 {
+                        cases.push(Case { cfg: cfg.clone(), docs: with_sort_keys(&docs), segments: vec![n], merge: false, fields: vec!["txt".into()], sort: Some(tfs.len() > 1) });
+                        cases.push(Case { cfg: cfg.clone(), docs: with_sort_keys(&docs), segments: vec![n / 3, n - n / 3], merge: true, fields: vec!["txt".into()], sort: Some(tfs.len() == 1) });
+                    }
+                    cases.push(Case { cfg, docs, segments: vec![n], merge: false, fields: vec!["txt".into()], sort: None });
                 }
             }
         }
@@ -775,8 +866,8 @@ pub fn all_cases(thorough: bool) -> Vec<Case> {
         let cfg = TextCfg { record: 2, fieldnorms: true, tokenizer: "raw".into() };
         let docs = long_term_docs();
         let n = docs.len();
-        cases.push(Case { cfg: cfg.clone(), docs: docs.clone(), segments: vec![n], merge: false, fields: vec!["txt".into()] });
-        cases.push(Case { cfg, docs, segments: vec![n / 2, n - n / 2], merge: true, fields: vec!["txt".into()] });
+        cases.push(Case { cfg: cfg.clone(), docs: docs.clone(), segments: vec![n], merge: false, fields: vec!["txt".into()], sort: None });
+        cases.push(Case { cfg, docs, segments: vec![n / 2, n - n / 2], merge: true, fields: vec!["txt".into()], sort: None });
     }
     // big cases first (better load balancing)
     cases.sort_by_key(|c| std::cmp::Reverse(c.docs.len()));
@@ -813,7 +904,7 @@ pub fn run(ctx: &Ctx) -> Report {
     });
     rep.set("exhaustive", done == cases.len());
     rep.set("cases", cases.len() as u64);
-    rep.set("rule", "family A: every multiset of <= 2 (thorough 3) documents over token sequences of <= 3 over {a,b,c} and every two-valued document, x record option {basic, freqs, positions} x fieldnorms on/off x tokenizer {default, raw, whitespace, ngram(1,2)}, single segment and merged; family B: posting lists of length {1,127,128,129,255,256,257,384,5000,40000} x doc-id gaps {1,2,255,256,65535} x term-frequency patterns crossing the 128-position block; terms of length 0 / 1 / 255 / 256 / 65530 / 65531 and a 300-byte shared-prefix family; family C: u64 / i64 / f64 / date / bool / bytes / ip / facet / two JSON fields (nested paths, arrays, mixed types) in 1-3 segments and merged. Each field dump (terms in byte order, postings, tf, positions, doc_freq, total tokens, field norms) equals the model computed with the index's own analyzer; every posting list is re-read block-wise and by seeks to every element +-1. Non-trivial: >= 2 documents; distinct by case index");
+    rep.set("rule", "family A: every multiset of <= 2 (thorough 3) documents over token sequences of <= 3 over {a,b,c} and every two-valued document, x record option {basic, freqs, positions} x fieldnorms on/off x tokenizer {default, raw, whitespace, ngram(1,2)}, single segment and merged; family B: posting lists of length {1,127,128,129,255,256,257,384,5000,40000} x doc-id gaps {1,2,255,256,65535} x term-frequency patterns crossing the 128-position block; terms of length 0 / 1 / 255 / 256 / 65530 / 65531 and a 300-byte shared-prefix family; family C: u64 / i64 / f64 / date / bool / bytes / ip / facet / two JSON fields (nested paths, arrays, mixed types) in 1-3 segments and merged. Each field dump (terms in byte order, postings, tf, positions, doc_freq, total tokens, field norms) equals the model computed with the index's own analyzer; every posting list is re-read block-wise, by seeks to every element +-1, and with every requested record option below and above the indexed one. Sorted indexes (sort_by_field on a fast key, ascending / descending, distinct non-monotone keys): one third of family A and the 129 / 257-element lists of family B, single segment and merged. Non-trivial: >= 2 documents; distinct by case index");
     for k in ["merged_cases", "posting_lists_reread", "field_dumps"] {
         if st.counters.get(k).copied().unwrap_or(0) == 0 {
             rep.machinery_errors.push(format!("vacuous: {k} = 0"));
